@@ -421,6 +421,14 @@ pub fn run(ctx: &mut Ctx) -> Report {
 		}
 	}
 	cases.push(Opts { cert: "leaf".into(), ca: "authority".into(), dir_exists: false, ..base.clone() });
+	// names as given: upper case, a trailing dot; and non-ASCII names whose code points end in a
+	// 7-bit octet (refused like any other non-ASCII name)
+	cases.push(Opts { san: vec!["UPPER.Example.COM".into(), "trailing.example.".into(), "Mixed.Case.example.".into()], server: true, ..base.clone() });
+	cases.push(Opts { san: vec!["\u{43f}\u{440}\u{438}\u{43c}\u{435}\u{440}.example".into()], ..base.clone() });
+	cases.push(Opts { san: vec!["ok.example".into(), "\u{142}\u{119}k.example".into()], ..base.clone() });
+	cases.push(Opts { san: vec!["\u{672c}.example".into()], dir_exists: false, ..base.clone() });
+	cases.push(Opts { cn: Some(" padded ".into()), org: Some("\ttabbed\t".into()), ..base.clone() });
+	cases.push(Opts { cn: Some("  ".into()), org: Some(" ".into()), ..base.clone() });
 	// base names that are different strings and the same file
 	cases.push(Opts { cert: "./root-ca.key".into(), ca: "root-ca".into(), ..base.clone() });
 	cases.push(Opts { cert: "leaf".into(), ca: "./leaf".into(), ..base.clone() });
